@@ -19,9 +19,13 @@ over every schedule; what is trusted is that Redis runs a script atomically.
 import Std.Data.String.ToNat
 import GoZero.C19.Refine
 import GoZero.C19.Schedule
+import GoZero.C19.Atomic
 import GoZero.C19.Driver
 namespace GoZero.C19
 open Spec
+
+/-- three and more instances on one key, ids "a", "aa", "aaa", … -/
+def exCfg (i : Nat) : LockCfg := { key := "k", id := String.ofList (List.replicate (i + 1) 'a') }
 
 /-! ### Acquire -/
 
@@ -237,6 +241,149 @@ theorem at_most_one_holder_under_every_schedule (cfg : Nat → LockCfg) (hd : Di
   rw [every_schedule_is_a_history cfg ops c h]
   exact this
 
+/-! ### Schedules at the granularity of Redis round trips (Cmds.lean / Atomic.lean)
+
+A call is a program of round trips; between any two round trips of one call, any other goroutine may
+perform round trips of its own calls, `SetExpire` may store and the Redis clock may move (`Act`, `cstep`).
+Atomic = one round trip: one script execution.  A call that sends several commands is several steps. -/
+
+/-- **Every Acquire / Release of the code that exists is ONE atomic store step**: whichever instance,
+whatever `seconds` it loaded, whether or not the script is cached in Redis, the call executes exactly one
+command on the store — the script — (possibly after an EVALSHA that Redis refused with NOSCRIPT without
+executing anything) and returns what it decodes from that single reply.  (Tie: `tie_acquireStoreCalls`,
+`tie_releaseStoreCalls`, `tie_scriptRunCtx` — exactly one `ScriptRunCtx` and no other store call in each.) -/
+theorem every_call_is_one_atomic_store_step (cfg : Nat → LockCfg) (cached : Bool) (call : Call) :
+    OneStoreStep (real.start cfg cached call) :=
+  real_start_oneStoreStep cfg cached call
+
+/-- … and that one round trip *is* the model's atomic operation: in every configuration reachable by any
+schedule, when a thread's executing round trip happens the shared state makes exactly `step … call.op` and
+the value the call will return is the model's result of that step. -/
+theorem call_takes_effect_at_its_store_step (cfg : Nat → LockCfg) (acts : List Act) (c : CConc)
+    (h : crun real cfg CConc.init acts = some c) (t : Nat) (th : Thread) (hth : c.thr t = some th)
+    (cm : Cmd) (k : Reply → Prog) (hp : th.prog = .cmd cm k) (hs : cm.isStoreStep = true) :
+    cstep real cfg c (.cmd t) =
+      some ({ st := (step cfg c.st th.call.op).1,
+              thr := updT c.thr t (some { th with prog := .done (step cfg c.st th.call.op).2 }) }, none) :=
+  real_store_step cfg c (real_exec_history cfg acts _ _ (realInv_init cfg St.init) h).1 t th hth cm k hp hs
+
+/-- **Every schedule of round trips is a history of atomic operations.**  Any number of goroutines, their
+calls interleaved round trip by round trip with clock advances and SetExpire stores in between: the shared
+state reached is `run` of the history `chist` (script runs as `acquireS i loaded` / `release i`, stores, clock). -/
+theorem every_command_schedule_is_a_history (cfg : Nat → LockCfg) (acts : List Act) (c : CConc)
+    (h : crun real cfg CConc.init acts = some c) :
+    c.st = run cfg St.init (chist real cfg CConc.init acts) :=
+  (real_exec_history cfg acts _ _ (realInv_init cfg St.init) h).2
+
+/-- so the exclusivity of beliefs holds in every configuration any round-trip schedule can reach -/
+theorem at_most_one_holder_under_every_command_schedule (cfg : Nat → LockCfg) (hd : DistinctIds cfg)
+    (acts : List Act) (c : CConc) (h : crun real cfg CConc.init acts = some c) (i j : Nat) (hij : i ≠ j)
+    (hk : (cfg i).key = (cfg j).key) :
+    ¬ (believes (grun cfg St.init Belief.none (chist real cfg CConc.init acts)).2 c.st.store.now i = true ∧
+       believes (grun cfg St.init Belief.none (chist real cfg CConc.init acts)).2 c.st.store.now j = true) := by
+  have := at_most_one_holder cfg hd (chist real cfg CConc.init acts) i j hij hk
+  rw [grun_fst] at this
+  rw [every_command_schedule_is_a_history cfg acts c h]
+  exact this
+
+/-- **Release by a non-holder, under every schedule**: whatever happened between the moment goroutine `t`
+entered `Release` of instance `a` and the moment its round trip reaches Redis — `a`'s lease ran out, `b`
+acquired — if `b` holds the key at that moment the round trip changes nothing and the call returns false. -/
+theorem release_in_any_schedule_never_frees_anothers_lock (cfg : Nat → LockCfg) (hd : DistinctIds cfg)
+    (acts : List Act) (c : CConc) (h : crun real cfg CConc.init acts = some c) (t a b : Nat) (th : Thread)
+    (hth : c.thr t = some th) (hcall : th.call = .rel a) (cm : Cmd) (k : Reply → Prog)
+    (hp : th.prog = .cmd cm k) (hs : cm.isStoreStep = true)
+    (hab : a ≠ b) (hk : (cfg a).key = (cfg b).key) (hb : holds cfg c.st b) :
+    cstep real cfg c (.cmd t) =
+      some ({ st := c.st, thr := updT c.thr t (some { th with prog := .done false }) }, none) := by
+  rw [call_takes_effect_at_its_store_step cfg acts c h t th hth cm k hp hs, hcall]
+  have hh := release_by_non_holder_harmless cfg hd c.st a b hab hk hb
+  have e : step cfg c.st (Call.rel a).op = release cfg c.st a := rfl
+  rw [e, hh.1, hh.2]
+
+/-- the schedule the property's last sentence is about, against a Release that checks (GET) and deletes
+(DEL) in two round trips: 0 acquires at time 0 (lease 500 ms); 0 enters Release, its GET sees its own id;
+the clock reaches 500, the lease is gone; 1 acquires — granted until 1000; 0's DEL arrives. -/
+def lateDelSchedule : List Act :=
+  [.acquire 0 0 true, .cmd 0, .ret 0, .release 0 0 true, .cmd 0, .ft 500, .acquire 1 1 true, .cmd 1, .ret 1,
+   .cmd 0, .ret 0]
+
+/-- **the semantics exhibits the failure of the non-atomic class** (witness): with Release = GET then DEL,
+in `lateDelSchedule` instance 1 is granted the lock at time 500 for 500 ms, instance 0's Release then
+reports true, and at time 500 the key is free although 1's lease runs until 1000. -/
+theorem get_then_del_release_frees_anothers_lock :
+    crets getThenDel exCfg CConc.init lateDelSchedule =
+      [⟨0, .acq 0 0, true⟩, ⟨1, .acq 1 0, true⟩, ⟨0, .rel 0, true⟩] ∧
+    (crun getThenDel exCfg CConc.init lateDelSchedule).map (fun c => (c.st.store.now, c.st.store.get "k")) =
+      some (500, none) := by
+  decide
+
+/-- the corresponding schedule of the code that exists (Release has a single round trip, so the expiry and
+1's Acquire fall between entering Release and that round trip) -/
+def lateScriptSchedule : List Act :=
+  [.acquire 0 0 true, .cmd 0, .ret 0, .release 0 0 true, .ft 500, .acquire 1 1 true, .cmd 1, .ret 1, .cmd 0, .ret 0]
+
+/-- … there 0's Release reports false and 1 keeps the lock. -/
+theorem script_release_late_schedule_is_harmless :
+    crets real exCfg CConc.init lateScriptSchedule =
+      [⟨0, .acq 0 0, true⟩, ⟨1, .acq 1 0, true⟩, ⟨0, .rel 0, false⟩] ∧
+    (crun real exCfg CConc.init lateScriptSchedule).map (fun c => (c.st.store.now, c.st.store.get "k")) =
+      some (500, some "aa") := by
+  decide
+
+/-- witness for the acquire side of the class (GET, then SET if absent or mine): two goroutines both read
+"absent" and both write — both Acquire calls report true at the same instant. -/
+theorem get_then_set_acquire_two_holders :
+    crets getThenSet exCfg CConc.init
+      [.acquire 0 0 true, .acquire 1 1 true, .cmd 0, .cmd 1, .cmd 0, .cmd 1, .ret 0, .ret 1] =
+      [⟨0, .acq 0 0, true⟩, ⟨1, .acq 1 0, true⟩] := by
+  decide
+
+/-! ### Lost replies and the caller's clock -/
+
+/-- **a reply lost after the script ran**: the caller saw an error, but Redis holds its id.  Whatever the
+caller thinks, its next calls act on what Redis has: its Release frees the key (true) and its Acquire
+refreshes the lease (true). -/
+theorem after_lost_reply_own_calls_work (cfg : Nat → LockCfg) (st : St) (i secs : Nat)
+    (h : (acquireWith cfg st i secs).2 = true) :
+    (release cfg (acquireWith cfg st i secs).1 i).2 = true ∧ (acquire cfg (acquireWith cfg st i secs).1 i).2 = true := by
+  have hinv := leaseInv_after_acquire cfg st i secs h
+  have hh : holds cfg (acquireWith cfg st i secs).1 i := by
+    rw [leaseInv_holds_iff cfg i _ _ hinv, acquireWith_now]
+    have := leaseMs_pos secs; omega
+  exact ⟨(release_result cfg _ i).2 hh, (acquire_iff_free_or_own cfg _ i).2 (Or.inr hh)⟩
+
+/-- **the lease is measured on Redis' clock from the script run; a caller that counts from the moment it
+STARTED the call is safe.**  If the call was entered at Redis time `t0` (so `t0 ≤` the time of the script
+run, the clock never goes back) then, whatever the others do, as long as the Redis clock is before
+`t0 + seconds·1000 + 500` the caller is the holder. -/
+theorem lease_counted_from_call_start (cfg : Nat → LockCfg) (hd : DistinctIds cfg) (st : St) (i secs t0 : Nat)
+    (h : (acquireWith cfg st i secs).2 = true) (ht0 : t0 ≤ st.store.now) (ops : List Op)
+    (hq : ∀ op ∈ ops, quietFor i op = true)
+    (hnow : (run cfg (acquireWith cfg st i secs).1 ops).store.now < t0 + (secs * 1000 + 500)) :
+    holds cfg (run cfg (acquireWith cfg st i secs).1 ops) i := by
+  rw [lease_is_seconds_plus_500ms cfg hd st i secs h ops hq]
+  rw [run_now, acquireWith_now] at hnow
+  omega
+
+/-! ### How much `DistinctIds` assumes
+
+`NewRedisLock` draws the id with `stringx.Randn(16)`: 16 characters, each one of 62 (Tie: `tie_randomLen`,
+`tie_idAlphabet`, `tie_randnBody`).  If the characters are uniform and independent, two given instances carry
+the same id with probability `62⁻¹⁶`, and among `n` instances some pair collides with probability at most
+`n(n-1)/2 · 62⁻¹⁶` (union bound).  The two theorems evaluate that: the id space, and "up to a million
+instances: below 10⁻¹⁶".  What is *not* covered: `stringx` seeds `math/rand` with the start time in
+nanoseconds — two processes started in the same nanosecond draw the same ids (assumption, props/C19.json). -/
+
+theorem id_space : 62 ^ 16 = 47672401706823533450263330816 := by decide
+
+/-- `n ≤ 10⁶` instances: (number of pairs) · 10¹⁶ ≤ 62¹⁶, i.e. collision probability ≤ 10⁻¹⁶ -/
+theorem id_collision_union_bound (n : Nat) (hn : n ≤ 1000000) : n * (n - 1) / 2 * 10 ^ 16 ≤ 62 ^ 16 := by
+  have h1 : n * (n - 1) ≤ 1000000 * 1000000 := Nat.mul_le_mul hn (by omega)
+  have h2 : n * (n - 1) / 2 ≤ 1000000 * 1000000 / 2 := Nat.div_le_div_right h1
+  calc n * (n - 1) / 2 * 10 ^ 16 ≤ 1000000 * 1000000 / 2 * 10 ^ 16 := Nat.mul_le_mul_right _ h2
+    _ ≤ 62 ^ 16 := by decide
+
 /-! ### The whole model is the lease table of the specification -/
 
 /-- for every history from the empty store, the Redis-level model (Lua scripts over the store) returns
@@ -278,8 +425,6 @@ theorem driver_cfg_distinct_ids (nkeys : Nat) : DistinctIds (mkCfg nkeys) := by
 
 /-! ### non-vacuity: concrete instances of the hypotheses and of the scenarios -/
 
-/-- three and more instances on one key, ids "a", "aa", "aaa", … -/
-def exCfg (i : Nat) : LockCfg := { key := "k", id := String.ofList (List.replicate (i + 1) 'a') }
 
 example : DistinctIds exCfg := by
   intro i j _ h
@@ -318,6 +463,15 @@ example : Exec exCfg
 
 -- a burst of five attempts (instance 2 twice): only instance 2, whose script ran first, wins
 example : winners exCfg St.init [2, 0, 1, 2, 3] = [2, 2] := by decide
+
+-- counting the lease from the moment the call RETURNED is unsound: the script ran at time 0, the reply
+-- arrived at 400; "mine until 400+500" is wrong from 500 on
+example : ¬ holds exCfg (run exCfg St.init [.acquireS 0 0, .ft 400, .ft 100]) 0 := by decide
+
+-- hypotheses of `release_in_any_schedule_never_frees_anothers_lock` are satisfiable: after the first eight
+-- steps of `lateScriptSchedule` thread 0 is inside Release with its script run pending and instance 1 holds
+example : (crun real exCfg CConc.init (lateScriptSchedule.take 8)).map (fun c => (pending c 0, decide (holds exCfg c.st 1)))
+    = some (true, true) := by decide
 
 -- beliefs: after A's lease ran out and B acquired, only B believes
 example : (believes (grun exCfg St.init Belief.none [.acquire 0, .ft 500, .acquire 1]).2 500 0,
